@@ -501,6 +501,13 @@ pub fn c12(tier: Tier, seed: u64) -> Verdict {
         }
     }
     if merged.violation.is_none() {
+        // growth when an allocator request is refused: the bounds hold for whatever capacity the call ends with
+        let nf = tier.pick(1500, 20_000);
+        let p = Profile { w_append: 26, w_static: 10, max_text: 300, ..Profile::faults() };
+        let m = run_sharded("C12", seed, 50, nf, || history_strategy(&p), super::enumerators::fault_case("C12", false));
+        merged.merge(m);
+    }
+    if merged.violation.is_none() {
         // push loops
         let mut ns: Vec<usize> = (1..=300).collect();
         ns.extend([1000, 10_000, 100_000, 1 << 20]);
